@@ -11,7 +11,7 @@
 (*   - the payload with each byte position overwritten by 0x00 / 0xFF.      *)
 (* Every state of the instance is one input; TLC emits them all.            *)
 (***************************************************************************)
-EXTENDS EngineFormat, Json, TLC
+EXTENDS EngineFormat, Json, TLC, FiniteSets
 
 CONSTANT Kinds
 
@@ -66,9 +66,35 @@ WithField(pl, pos, w, le, val8) ==
     [k \in 1 .. Len(pl) |-> IF k >= pos /\ k < pos + w THEN bytes[k - pos + 1] ELSE pl[k]]
 FieldValue(pl, pos, w, le) == IF w = 1 THEN pl[pos] ELSE IF le THEN pl[pos] ELSE pl[pos + 7]     \* (small sample counts)
 
+\* Fields whose value enters signed arithmetic in a decoder although it is no count: the 64-bit beat index of a 1.x beat-grid
+\* marker is narrowed to 32 bits and consecutive indices are subtracted.  Boundary classes of a signed field:
+ArithFields(kind) == IF kind = "beat_data1" THEN {<<34, 8, TRUE>>, <<58, 8, TRUE>>, <<90, 8, TRUE>>, <<114, 8, TRUE>>} ELSE {}
+SignedBoundary == { <<0, 0, 0, 0, 127, 255, 255, 255>>,                 \* 2^31 - 1
+                    <<255, 255, 255, 255, 128, 0, 0, 0>>,               \* -2^31
+                    <<0, 0, 0, 0, 128, 0, 0, 0>>,                       \* 2^31
+                    <<255, 255, 255, 255, 255, 255, 255, 254>>,         \* -2
+                    <<127, 255, 255, 255, 255, 255, 255, 255>>,         \* 2^63 - 1
+                    <<128, 0, 0, 0, 0, 0, 0, 0>> }                      \* -2^63
+\* all 8-byte count fields of a payload replaced by the SAME boundary value: the waveform layouts repeat their entry count and
+\* the decoders compare the two before they compute with them, so a single replaced field never reaches the arithmetic
+Wide(kind) == {f \in CountFields(kind) : f[2] = 8}
+RECURSIVE WithFields(_, _, _)
+WithFields(pl, fs, val8) == IF fs = {} THEN pl ELSE LET f == CHOOSE x \in fs : TRUE IN WithFields(WithField(pl, f[1], f[2], f[3], val8), fs \ {f}, val8)
+\* (the length the decoders compare a pair of equal counts n against: such that n entries fit exactly / with a remainder)
+JointBoundary(kind, pl) ==
+    LET f == CHOOSE x \in Wide(kind) : TRUE IN Boundary(FieldValue(pl, f[1], f[2], f[3]))
+
 Inputs(kind) ==
     LET pl == Payload(kind) IN
-       {SubSeq(pl, 1, n) : n \in 0 .. Len(pl)}
+       (IF Cardinality(Wide(kind)) >= 2
+        THEN {WithFields(pl, Wide(kind), b) : b \in JointBoundary(kind, pl)}
+             \cup {SubSeq(WithFields(pl, Wide(kind), b), 1, n) : b \in JointBoundary(kind, pl), n \in {Len(pl) - 2, Len(pl) - 1}}
+             \cup {WithFields(pl, Wide(kind), b) \o <<0>> : b \in JointBoundary(kind, pl)}
+        ELSE {})
+  \cup UNION {{WithField(pl, f[1], f[2], f[3], b) : b \in SignedBoundary} : f \in ArithFields(kind)}
+  \cup UNION {UNION {{WithField(WithField(pl, f[1], f[2], f[3], a), g[1], g[2], g[3], b) : a \in SignedBoundary, b \in SignedBoundary} :
+                        g \in {h \in ArithFields(kind) : h[1] = f[1] + 24}} : f \in ArithFields(kind)}
+  \cup {SubSeq(pl, 1, n) : n \in 0 .. Len(pl)}
   \cup UNION {{WithField(pl, f[1], f[2], f[3], b) : b \in Boundary(FieldValue(pl, f[1], f[2], f[3]))} : f \in CountFields(kind)}
   \cup UNION {{SubSeq(WithField(pl, f[1], f[2], f[3], b), 1, n) : b \in Boundary(FieldValue(pl, f[1], f[2], f[3])),
                                                                    n \in {f[1] + f[2] - 1, f[1] + f[2], f[1] + f[2] + 7, f[1] + f[2] + 8, Len(pl) - 1}} : f \in CountFields(kind)}
